@@ -591,7 +591,7 @@ fn run_main(args: &[String]) -> i32 {
             "known_findings_matched": known_hits,
             "worker_digests": digests,
             "real_code": ["sqlgrep parser, Tables, TableDefinition::extract, ExecutionEngine, select/aggregate/join engines, FileExecutor, FollowFileExecutor, FollowFileIterator, OutputPrinter", "Rust std File/BufReader/lines/read_line/println!/RandomState/atomics", "regex, serde_json, chrono"],
-            "stubbed": ["kernel VFS (SimDisk behind open64/read/lseek64/close)", "log-writing processes (Writer actor)", "ctrl-c handler thread (Interrupter actor: running.store(false))", "OS entropy (getrandom serves scripted hash keys)", "terminal (write(1) captured)"],
+            "stubbed": ["kernel VFS (SimDisk behind open/read/readv/pread/lseek/close/dup/fcntl(F_DUPFD)/statx/realpath)", "system clock and sleeps (virtual clock behind clock_gettime/nanosleep)", "process environment seen by the code under test (TZ and locale variables set per world)", "log-writing processes (Writer actor)", "ctrl-c handler thread (Interrupter actor: running.store(false))", "OS entropy (getrandom serves scripted hash keys)", "terminal (write(1) captured)"],
             "not_executed": ["src/main.rs argument parsing / REPL / ctrlc registration", "src/table_editor.rs"],
         },
         "assumptions": prop.assumptions(),
